@@ -173,7 +173,7 @@ def subst_values(name, dom, tier, siblings=None):
     vals = []
     if dtype == "real":
         if shape == ():
-            vals += [N(2.5), T((), lid=31), T("i", lid=32), V("x", "real"), V("w", "real"),
+            vals += [T((), lid=31), N(2.5), T("i", lid=32), V("x", "real"), V("w", "real"),
                      ("B", "add", ("B", "mul", N(2.0), V("w", "real")), N(1.0)),
                      ("B", ("getitem", 0), V("y", "real", (2,)), N(0, 2))]
             vals.append(("U", "exp", (), V("w", "real")))  # a non-affine lazy value
